@@ -65,6 +65,9 @@ pub struct Stats {
     pub determinism_rechecks: u64,
     pub nondeterminism: Vec<String>,
     pub harness_errors: Vec<String>,
+    /// (index, signal): a forked child (isolated mode) was killed by a fatal signal raised by the code under test
+    #[serde(default)]
+    pub crashes: Vec<(u64, i32)>,
     #[serde(skip)]
     pub interleavings: BTreeSet<u64>,
     #[serde(skip)]
